@@ -35,7 +35,7 @@ def _kidsw(children):
     out = []
     for c in children:
         d = c.as_dict()
-        if c.type == "code_inline":
+        if c.type in ("code_inline", "html_inline"):
             d["content"] = _WS.sub(" ", d["content"])
         if c.children:
             d["children"] = _kidsw(c.children)
